@@ -39,8 +39,9 @@ def node():
 SELF = Inst("RequirementConstraintTransformer")
 CLAUSE_PROPS = {"post_cf": ["C04", "C05"], "post_wf": ["C04", "C07"], "post_fc_view": ["C07"],
                 "post_keeps_hint_of_hint_partner": ["C04"],
-                "raises-InvalidExpressionError": ["C04", "C06"], "raises-NotImplementedError": ["C04", "C06"],
-                "raises-only-declared": ["C04", "C06"]}
+                # C05 says "... keeps the expression VALID and leaves the outcome unchanged": the raise conditions serve it too
+                "raises-InvalidExpressionError": ["C04", "C05", "C06"], "raises-NotImplementedError": ["C04", "C05", "C06"],
+                "raises-only-declared": ["C04", "C05", "C06"]}
 EC_RESULT = Inst("EvaluatedComposition", conditions_fulfilled=Enum("ConditionFulfilledValue"), hint=Opt(Str()),
                  format_constraints_expression=Opt(Str()))
 
